@@ -55,7 +55,7 @@ ASSUMPTIONS = [
 
 CPU_CAP_SMALL = 0.25    # seconds of process CPU time for one parse/build of a file < 100 kB
 CPU_CAP_BIG = 2.0
-MEM_CAP = 3 << 30       # address-space cap of a worker while deviated files are handled
+MEM_CAP = 3 << 29       # address-space cap of a worker while deviated files are handled
 
 EHDR_FIELDS = elfcorpus.EHDR_FIELDS
 SHDR_FIELDS = elfcorpus.SHDR_FIELDS
@@ -79,7 +79,7 @@ def _quiet():
     logging.getLogger("elfparse").setLevel(logging.CRITICAL)
 
 
-class CpuTimeout(Exception):
+class CpuTimeout(BaseException):
     pass
 
 
@@ -431,6 +431,21 @@ def _bump(d, k, n=1):
 
 
 def _shard(args):
+    old = resource.getrlimit(resource.RLIMIT_AS)
+    try:
+        resource.setrlimit(resource.RLIMIT_AS, (MEM_CAP, old[1]))
+    except (ValueError, OSError):
+        pass
+    try:
+        return _shard_inner(args)
+    finally:
+        try:
+            resource.setrlimit(resource.RLIMIT_AS, old)
+        except (ValueError, OSError):
+            pass
+
+
+def _shard_inner(args):
     kind, name, payload = args
     ent = elfcorpus.get(name) if not isinstance(name, dict) else name
     res = {"n": 0, "nt": 0, "vs": [], "outcomes": {}, "sample": None, "stats": None, "per_sig": {}}
@@ -470,28 +485,17 @@ def _shard(args):
                             res["sample"] = {"file": ent["name"], "section": i, "pos": pos, "xor": xor, "path": path}
     elif kind == "deviation":
         lo, hi = payload
-        old = resource.getrlimit(resource.RLIMIT_AS)
-        try:
-            resource.setrlimit(resource.RLIMIT_AS, (MEM_CAP, old[1]))
-        except (ValueError, OSError):
-            pass
-        try:
-            lay, sites = deviation_sites(ent["data"])
-            for (label, fcls, off, sz, _) in sites[lo:hi]:
-                for delta in (1, -1):
-                    vs, outcome = check_deviation(ent, label, fcls, off, sz, delta)
-                    res["n"] += 1
-                    if outcome.startswith("accepted") or outcome == "violation":
-                        res["nt"] += 1
-                    _bump(res["outcomes"], "deviation:" + outcome)
-                    add(vs)
-                    if res["sample"] is None and outcome == "accepted-identity-lost":
-                        res["sample"] = {"file": ent["name"], "deviation": label, "delta": delta}
-        finally:
-            try:
-                resource.setrlimit(resource.RLIMIT_AS, old)
-            except (ValueError, OSError):
-                pass
+        lay, sites = deviation_sites(ent["data"])
+        for (label, fcls, off, sz, _) in sites[lo:hi]:
+            for delta in (1, -1):
+                vs, outcome = check_deviation(ent, label, fcls, off, sz, delta)
+                res["n"] += 1
+                if outcome.startswith("accepted") or outcome == "violation":
+                    res["nt"] += 1
+                _bump(res["outcomes"], "deviation:" + outcome)
+                add(vs)
+                if res["sample"] is None and outcome == "accepted-identity-lost":
+                    res["sample"] = {"file": ent["name"], "deviation": label, "delta": delta}
     return res
 
 
